@@ -409,8 +409,46 @@ def r5_entry_points(ctx):
         ctx.ok("C08.R5", (DIST, "StatelessDistributionFamily"), None, "no distribution family overrides nll / regularization / nll_jacobian / nll_and_jacobian", construct="no override")
 
 
+def r8_stateless(ctx):
+    """The terms are functions of the *current* outcomes and parameters: the density families keep no value from one evaluation to the next."""
+    from ..effects import global_writes
+    ctx.rule("C08.R8", "density families are stateless: no function reachable from a density entry point (`nll`, `nll_jacobian`, `regularization`, the Weibull terms) stores into a class attribute, a module global "
+             "or a memoising decorator (a term served from an earlier evaluation is not the negative log-density of the current values)", 20)
+    from ._shared import callgraph
+    ENTRY = ("nll", "nll_jacobian", "nll_and_jacobian", "regularization", "_nll", "_nll_jacobian", "_nll_and_jacobian", "compute_nll",
+             "compute_log_likelihood_hazard", "compute_log_survival", "compute_predictions", "compute_hazard")
+    entries = [f for (mod, qual), f in sorted(ctx.ix.funcs.items())
+               if (mod == DIST or mod.startswith("leaspy.models.obs_models")) and qual.split(".")[-1] in ENTRY]
+    if len(entries) < 8:
+        raise AnalysisError("C08.R8", f"only {len(entries)} density entry points found (anchor vanished?)")
+    seen = callgraph(ctx).reach(entries, kinds=("exact", "typed", "indirect"))
+    seen = seen[0] if isinstance(seen, tuple) else seen
+    n = 0
+    for (mod, qual) in sorted(seen):
+        f = ctx.ix.funcs[(mod, qual)]
+        if not mod.startswith("leaspy."):
+            continue
+        n += 1
+        bad = False
+        for node, desc in global_writes(ctx.ix, f):
+            if desc.startswith("process-wide setting"):
+                continue
+            bad = True
+            ctx.violation("C08.R8", f, node, f"`{qual}` stores into {desc}: the value survives the evaluation and can be served for other inputs")
+        for d in getattr(f.node, "decorator_list", []):
+            t = U(d.func if isinstance(d, ast.Call) else d)
+            if t.split(".")[-1] in ("lru_cache", "cache", "cached_property", "memoize"):
+                bad = True
+                ctx.violation("C08.R8", f, d, f"`{qual}` is memoised (`{t}`): tensors hash by identity, a value changed in place is served stale")
+        if not bad:
+            ctx.ok("C08.R8", f, f.node, "no store outliving the call, no memoising decorator", construct=f"{qual}: stateless")
+    if n < 20:
+        raise AnalysisError("C08.R8", f"only {n} functions reachable from the density entry points (anchor vanished?)")
+
+
 def rules(ctx):
     r1_gaussian(ctx)
+    r8_stateless(ctx)
     r5_entry_points(ctx)
     # "entry by entry": the entries that take part in an attachment are those of the dataset mask - the outcome variable handed to the
     # Gaussian / Bernoulli densities carries that mask as its weight (a missing outcome filled with 0 is not an observed 0): same rule as C06.R2
@@ -433,6 +471,7 @@ VARIANTS = [
       "    nll_constant_standard: ClassVar = 0.5 * torch.log(torch.tensor(math.pi))\n\n    @classmethod\n    def mode(cls, loc: torch.Tensor, scale: torch.Tensor)", "C08.R1"),
     V("jacobian-wrong-power", D, "        return WeightedTensor((x.value - loc) / scale**2, x.weight)", "        return WeightedTensor((x.value - loc) / scale, x.weight)", "C08.R1"),
     V("torch-nll-positive", D, "        return WeightedTensor(-cls.dist_factory(*params).log_prob(x.value), x.weight)", "        return WeightedTensor(cls.dist_factory(*params).log_prob(x.value), x.weight)", "C08.R2"),
+    V("family-class-memo", D, "        return torch.exp(-xi) * nu\n", "        cls._last_nu = torch.exp(-xi) * nu\n        return cls._last_nu\n", "C08.R8"),
     V("survival-no-clamp", D, "torch.clamp(event_reparametrized_time, min=0.0)", "event_reparametrized_time", "C08.R3"),
     V("hazard-for-censored", D, "        log_hazard = torch.where(event_bool != 0, log_hazard, 0.0)\n", "", "C08.R3"),
     V("nu-sign", D, "        return torch.exp(-xi) * nu\n", "        return torch.exp(xi) * nu\n", "C08.R3"),
